@@ -105,8 +105,61 @@ theorem xz_run_compresses_full (c : XzW.Cfg) (hc : XzW.CfgOk c) (hd : 65536 ≤ 
     Xz.footerBytes_size, Xz.zeros_size, Xz.checkValue_size c.flags hfl, hout, hbh]
   omega
 
+/-- BinaryTree, one block: `n/500 + 117 + 63 + check size` (inside 128 + 64 for no check, CRC32, CRC64) -/
+theorem xz_run_compresses_check_bt (c : XzW.Cfg) (hc : XzW.CfgOk c) (hd : 65536 ≤ c.w2.dictCap) (b : UInt8) (n : Nat)
+    (hblk : n ≤ c.blockSize) (hn : n < 2 ^ 40) :
+    (XzW.run c BT.BT4 (BT.St.new c.w2.dictCap c.w2.bufSize) [runOf b n]).size ≤
+      n / 500 + 117 + 63 + (Xz.checkSize c.flags).getD 0 := by
+  obtain ⟨hw2, hbs, hfl⟩ := hc
+  have hrun := XzWF.xzw_run_eq c hw2 BT.BT4 (BT.Synced c.w2) (BT.bt4_matcherInv c.w2)
+    (BT.St.new c.w2.dictCap c.w2.bufSize) (BT.synced_new c.w2) [runOf b n]
+  rw [split_single c.blockSize (runOf b n) (by rw [runOf_size]; exact hblk)] at hrun
+  rw [hrun]
+  simp only [List.map_cons, List.map_nil]
+  have hout : (XzW.runBlock c BT.BT4 (BT.St.new c.w2.dictCap c.w2.bufSize) [runOf b n]).out =
+      lzma2OfRunBT c.w2 b n := rfl
+  have hsz := run_compresses_117_bt c.w2 hw2 hd b n
+  have hcs : (Xz.checkSize c.flags).getD 0 ≤ 32 := by
+    rcases Xz.checkSize_cases c.flags hfl with h | h | h | h <;> rw [h] <;> decide
+  have hbh := XzWF.blockHeader_size c hw2
+  have hcat : (XzW.cat [runOf b n]).size = n := by rw [XzW.cat_single, runOf_size]
+  have hpl := (Xz.padLen_lt (lzma2OfRunBT c.w2 b n).size).1
+  have hrec1 : (XzWF.recW c BT.BT4 (BT.St.new c.w2.dictCap c.w2.bufSize) [runOf b n]).1 < 2 ^ 63 := by
+    show (XzWF.blockHeader c).size + (XzW.runBlock c BT.BT4 _ [runOf b n]).out.size + (Xz.checkSize c.flags).getD 0 < _
+    rw [hout, hbh]; omega
+  have hrec2 : (XzWF.recW c BT.BT4 (BT.St.new c.w2.dictCap c.w2.bufSize) [runOf b n]).2 < 2 ^ 63 := by
+    show (XzW.cat [runOf b n]).size < _
+    rw [hcat]; omega
+  have hu1 := (Xz.putUvarint_size _ hrec1).2
+  have hu2 := (Xz.putUvarint_size _ hrec2).2
+  generalize XzWF.recW c BT.BT4 (BT.St.new c.w2.dictCap c.w2.bufSize) [runOf b n] = r at *
+  have hib : (Xz.indexBody [r]).size ≤ 4 * 5 := by
+    unfold Xz.indexBody Xz.recsBytes Xz.recsBytes
+    simp only [ByteArray.size_append, List.length_cons, List.length_nil, ByteArray.size_empty, Nat.zero_add]
+    have : (ByteArray.empty.push 0).size = 1 := rfl
+    have := putUvarint_one
+    omega
+  have hidx : (Xz.indexBytes [r]).size ≤ 24 := by
+    rw [Xz.indexBytes_size]
+    unfold Xz.indexPadded
+    rw [ByteArray.size_append, Xz.zeros_size]
+    have := pad_le _ 5 hib
+    omega
+  unfold XzWF.SP XzWF.blockW
+  simp only [List.map_cons, List.map_nil, XzW.cat_single, ByteArray.size_append, Xz.streamHeader_size,
+    Xz.footerBytes_size, Xz.zeros_size, Xz.checkValue_size c.flags hfl, hout, hbh]
+  omega
+
+
+theorem xz_run_compresses_192_bt (c : XzW.Cfg) (hc : XzW.CfgOk c) (hd : 65536 ≤ c.w2.dictCap) (b : UInt8) (n : Nat)
+    (hblk : n ≤ c.blockSize) (hn : n < 2 ^ 40) (hck : (Xz.checkSize c.flags).getD 0 ≤ 12) :
+    (XzW.run c BT.BT4 (BT.St.new c.w2.dictCap c.w2.bufSize) [runOf b n]).size ≤ n / 500 + 128 + 64 := by
+  have := xz_run_compresses_check_bt c hc hd b n hblk hn
+  omega
+
 end RunCost
 
 #print axioms RunCost.xz_run_compresses_check
 #print axioms RunCost.xz_run_compresses_192
 #print axioms RunCost.xz_run_compresses_full
+#print axioms RunCost.xz_run_compresses_192_bt
